@@ -3,16 +3,17 @@
    the parser model lark_of, the transcription walk of _walk_lark_tree with the Term methods it reaches),
    Model/ExprSem.v (py_meaning: Python's meaning of a parse tree; eval: the DSL's meaning of an expression object),
    Model/ExprPrint.v (to_python), Model/ExprAst.v (ASTs with explicit parentheses, unparse, strip) and
-   Model/ExprRoundtrip.v (printable, the guards).  They are tied to /repo by correspondence on every run.
+   Model/ExprRoundtrip.v (printable, src_ok).  They are tied to /repo by correspondence on every run.
 
-   First half (meaning): proved at full strength for the walker as it is since 1b8c7b2 (comparison chains are
-   rejected; before that fix 'a < b < c' was read as (a < b) < c -- the regression witness is C13_chain_regression).
-
-   FULL STATEMENT of the second half -- "parse a text, print the result, parse again: an equal tree" -- is FALSE
-   for the code as it is (the five theorems C13_print_parse_roundtrip_refuted_...); it is proved under the guards src_ok (NAME tokens
-   are not operator texts; no call of a dunder method written in the text; callees are NAME or expr.NAME) and
-   expr_kf_ok (no infinite constant, no list of fewer than two items unless it is one literal token, no -0.0 as the
-   base of a power), each of which is a listed known finding with its witness below. *)
+   All three parts are proved at full strength for the code as it is since 181daac:
+   1. meaning (comparison chains are rejected since 1b8c7b2; before that fix 'a < b < c' was read as (a < b) < c --
+      the regression witness is C13_chain_regression);
+   2. precedence;
+   3. "parse a text, print the result, parse again: an equal tree".  It was false in five ways, repaired by
+      a6af5a7 (-0.0 printed with its parentheses), e648ab6 (overflowing float literal rejected), 3753518 (one-item
+      and empty list literals) and 181daac (only names can be called; no dunder method in text); the former
+      counterexamples are the regression Examples below.  The one remaining premise src_ok is about the lexer, not
+      about the library: a NAME token of the source is not the text of an operator symbol. *)
 From Coq Require Import List Bool String Ascii ZArith NArith QArith Arith.
 Import ListNotations.
 From DA Require Import Model.PyExpr Model.ExprPrint Model.ExprParse Model.ExprSem Model.ExprAst Model.ExprRoundtrip
@@ -69,68 +70,58 @@ Print Assumptions C13_printable_roundtrip.
 (* whatever the walker builds from the tree of a source AST is printable *)
 Theorem C13_parsed_is_printable :
   forall (c : cfg) (dd : list string) (d : dtree) (e : expr),
-  wfn d = true -> src_ok d = true -> walk c dd (strip d) = Ok e -> expr_kf_ok e = true ->
+  wfn d = true -> src_ok d = true -> walk c dd (strip d) = Ok e ->
   printable c dd e = true.
 Proof. exact built_printable. Qed.
 Print Assumptions C13_parsed_is_printable.
 
-(* parse the text of a source AST, print the result, parse again: the same object, is_equal to the first *)
-Theorem C13_print_parse_roundtrip_partial :
+(* parse the text of ANY source AST, print the result, parse again: the same object, is_equal to the first *)
+Theorem C13_print_parse_roundtrip :
   forall (c : cfg) (dd : list string) (d : dtree) (e : expr),
   wfn d = true -> src_ok d = true ->
-  parse c dd (unparse d) = Ok e -> expr_kf_ok e = true ->
+  parse c dd (unparse d) = Ok e ->
   exists e', parse c dd (to_python e) = Ok e' /\ e' = e /\ is_equal e e' = true.
 Proof. exact roundtrip_of_source_eq. Qed.
-Print Assumptions C13_print_parse_roundtrip_partial.
+Print Assumptions C13_print_parse_roundtrip.
 
-(* the witnesses of the known findings, each violating exactly one guard *)
-(* (-0.0) ** 2  prints as  -0.0 ** 2  which is read back as  -(0.0 ** 2) *)
-Theorem C13_print_parse_roundtrip_refuted_negative_zero :
+(* regressions: the former counterexamples of the round trip *)
+(* a6af5a7: (-0.0) ** 2  was printed as  -0.0 ** 2  = -(0.0 ** 2); it is printed with its parentheses *)
+Example C13_regression_negative_zero :
   wfn negzero_src = true /\ src_ok negzero_src = true /\
-  parse kcfg kdd (unparse negzero_src) = Ok negzero_e /\ parse kcfg kdd (to_python negzero_e) = Ok negzero_e' /\
-  is_equal negzero_e negzero_e' = false /\ expr_kf_ok negzero_e = false.
-Proof. exact negzero_refuted. Qed.
-Print Assumptions C13_print_parse_roundtrip_refuted_negative_zero.
+  parse kcfg kdd (unparse negzero_src) = Ok negzero_e /\
+  to_python negzero_e = [TSym "("; TSym "-"; TFloat (Some 0%Q); TSym ")"; TSym "**"; TInt 2] /\
+  parse kcfg kdd (to_python negzero_e) = Ok negzero_e.
+Proof. exact negzero_regression. Qed.
 
-(* 1e400 + a  prints as  inf + a  which does not parse *)
-Theorem C13_print_parse_roundtrip_refuted_infinity :
-  wfn inf_src = true /\ src_ok inf_src = true /\
-  parse kcfg kdd (unparse inf_src) = Ok inf_e /\ parse kcfg kdd (to_python inf_e) = Err /\ expr_kf_ok inf_e = false.
-Proof. exact inf_refuted. Qed.
-Print Assumptions C13_print_parse_roundtrip_refuted_infinity.
+(* e648ab6: 1e400 + a  became  inf + a  which does not parse; the literal is rejected *)
+Example C13_regression_infinity :
+  wfn inf_src = true /\ src_ok inf_src = true /\ parse kcfg kdd (unparse inf_src) = Err.
+Proof. exact inf_regression. Qed.
 
-(* a.is_in([-1,])  prints as  a.is_in([-1])  which does not parse;  a.is_in([True]) is parsed to the EMPTY list *)
-Theorem C13_print_parse_roundtrip_refuted_short_list :
+(* 3753518: a.is_in([-1,])  was printed as  a.is_in([-1])  which did not parse;  a.is_in([True])  was parsed to the
+   EMPTY list; one-item and empty list literals are read item by item *)
+Example C13_regression_short_list :
   wfn short_list_src = true /\ src_ok short_list_src = true /\
-  parse kcfg kdd (unparse short_list_src) = Ok short_list_e /\ parse kcfg kdd (to_python short_list_e) = Err /\
-  expr_kf_ok short_list_e = false /\
+  parse kcfg kdd (unparse short_list_src) = Ok short_list_e /\ parse kcfg kdd (to_python short_list_e) = Ok short_list_e /\
   wfn true_list_src = true /\ src_ok true_list_src = true /\
-  parse kcfg kdd (unparse true_list_src) = Ok (EOp "is_in" false true None [ECol "a"; EList []]).
-Proof. exact short_list_refuted. Qed.
-Print Assumptions C13_print_parse_roundtrip_refuted_short_list.
+  parse kcfg kdd (unparse true_list_src) = Ok true_list_e /\ parse kcfg kdd (to_python true_list_e) = Ok true_list_e /\
+  parse kcfg kdd (unparse empty_list_src) = Ok (EOp "is_in" false true None [ECol "a"; EList []]).
+Proof. exact short_list_regression. Qed.
 
-(* (+p)(a, c)  is accepted as the function "+" and prints as  +(a, c)  which does not parse *)
-Theorem C13_print_parse_roundtrip_refuted_called_operator :
-  wfn called_operator_src = true /\ src_ok called_operator_src = false /\
-  parse kcfg kdd (unparse called_operator_src) = Ok called_operator_e /\ expr_kf_ok called_operator_e = true /\
-  parse kcfg kdd (to_python called_operator_e) = Err.
-Proof. exact called_operator_refuted. Qed.
-Print Assumptions C13_print_parse_roundtrip_refuted_called_operator.
-
-(* a.__and__(b)  builds the bitwise expression a & b, whose text the walker rejects *)
-Theorem C13_print_parse_roundtrip_refuted_dunder_call :
-  wfn dunder_src = true /\ src_ok dunder_src = false /\
-  parse kcfg kdd (unparse dunder_src) = Ok dunder_e /\ expr_kf_ok dunder_e = true /\
-  parse kcfg kdd (to_python dunder_e) = Err.
-Proof. exact dunder_refuted. Qed.
-Print Assumptions C13_print_parse_roundtrip_refuted_dunder_call.
+(* 181daac: (+p)(a, c)  was accepted as the function "+", printed  +(a, c);  a.__and__(b)  built  a & b  whose text
+   the walker rejects; both texts are rejected *)
+Example C13_regression_call_targets :
+  wfn called_operator_src = true /\ src_ok called_operator_src = true /\
+  parse kcfg kdd (unparse called_operator_src) = Err /\
+  wfn dunder_src = true /\ src_ok dunder_src = true /\ parse kcfg kdd (unparse dunder_src) = Err.
+Proof. exact call_target_regression. Qed.
 
 (* ------------------------------------------------------------------ non-vacuity *)
 (* the guards of every theorem above hold of   not p and -a ** 2 + b.abs() * (c - 1) < 3   with a = 3, b = -2, c = 5,
    p = False: well-formed, parsed to sample_e, printable, both meanings are True *)
 Example C13_sample_guards :
   wfn sample_src = true /\ src_ok sample_src = true /\
-  parse sample_cfg kdd (unparse sample_src) = Ok sample_e /\ expr_kf_ok sample_e = true /\
+  parse sample_cfg kdd (unparse sample_src) = Ok sample_e /\
   printable sample_cfg kdd sample_e = true /\ is_term sample_e = true /\
   py_meaning concrete_fsem sample_env (strip sample_src) = Some (PBool true) /\
   eval concrete_fsem sample_env sample_e = Some (PBool true).
